@@ -217,6 +217,34 @@ func c08Mutations() []propMut {
 			p.Transactions = append([][]byte{raw}, p.Transactions...)
 			p.ExtraData[0]++
 		}, true),
+		{"due-system-txs-omitted", func(w *enga.World) ([][]byte, bool) {
+			ctx, _ := w.N.Ctx().CacheContext()
+			due, err := w.N.App.GoatKeeper.Dequeue(ctx)
+			must(err)
+			if len(due) == 0 {
+				return nil, false
+			}
+			tx, _, err := w.N.BuildEthBlockTx(sim.EthBlockOpts{Rehash: true, MutatePayload: func(p *goatmodtypes.ExecutionPayload) {
+				p.Transactions = p.Transactions[int(p.ExtraData[0]):]
+				p.ExtraData[0] = 0
+			}})
+			must(err)
+			return [][]byte{tx}, true
+		}},
+		{"one-due-system-tx-omitted", func(w *enga.World) ([][]byte, bool) {
+			ctx, _ := w.N.Ctx().CacheContext()
+			due, err := w.N.App.GoatKeeper.Dequeue(ctx)
+			must(err)
+			if len(due) < 2 {
+				return nil, false
+			}
+			tx, _, err := w.N.BuildEthBlockTx(sim.EthBlockOpts{Rehash: true, MutatePayload: func(p *goatmodtypes.ExecutionPayload) {
+				p.Transactions = p.Transactions[1:]
+				p.ExtraData[0]--
+			}})
+			must(err)
+			return [][]byte{tx}, true
+		}},
 		payloadMut("block-hash-not-matching", func(p *goatmodtypes.ExecutionPayload) { p.GasUsed += 5 }, false), // engine answers INVALID
 		{"timeout-height+1", func(w *enga.World) ([][]byte, bool) {
 			th := uint64(w.N.Height + 2)
@@ -263,7 +291,7 @@ var bigZero = newBig(0)
 
 var c08MustNotMoveHead = map[string]bool{"block-message-missing": true, "block-message-shares-its-transaction": true, "authored-by-other-validator": true,
 	"signed-by-other-key": true, "wrong-fee-recipient": true, "wrong-parent-hash": true, "number+1": true, "number-1": true, "wrong-beacon-root": true,
-	"zero-gas-requests": true, "two-gas-requests": true, "undecodable-requests": true, "short-request": true, "invented-system-tx": true,
+	"due-system-txs-omitted": true, "one-due-system-tx-omitted": true, "zero-gas-requests": true, "two-gas-requests": true, "undecodable-requests": true, "short-request": true, "invented-system-tx": true,
 	"extra-data-32-bytes": true, "timeout-height+1": true, "timeout-height-0": true, "memo": true, "nil-payload": true}
 
 // c08Converse: every single mutation of a well-formed proposal is rejected by
@@ -315,7 +343,7 @@ func runC08(r *mc.Run) {
 		r.SetBudget(170 * 1e9)
 	}
 	r.Bounds["depth_blocks"] = depth
-	r.Rule = "at every state of a tree search over block histories (2 validators, relayer proposer + 1 voter; menu with queue-filling events, unlock maturity, elections): (honest) for 7 mempool classes the real PrepareProposal output must be ACCEPTed by a second replica, carry <= 16 txs and its execution-block message must succeed in FinalizeBlock; (converse) 26 single mutations of a well-formed proposal must be rejected by ProcessProposal and must not move the head when finalised anyway; (schedules, races) see schedule_* keys"
+	r.Rule = "at every state of a tree search over block histories (2 validators, relayer proposer + 1 voter; menu with queue-filling events, unlock maturity, elections): (honest) for 7 mempool classes the real PrepareProposal output must be ACCEPTed by a second replica, carry <= 16 txs and its execution-block message must succeed in FinalizeBlock; (converse) 28 single mutations of a well-formed proposal must be rejected by ProcessProposal and must not move the head when finalised anyway; (schedules, races) see schedule_* keys"
 	r.Assumptions = []string{"validators' clocks are not behind the proposer's", "ELSim canonical mode defines the well-behaved execution layer"}
 	root, err := enga.NewWorld(c08Cfg())
 	if err != nil {
